@@ -1,10 +1,10 @@
-"""C26 (slice) -- `#if` expression evaluation of the C preprocessor (CPreProcessor._eval_tree with the
-OP_MAP operator table, unary operators, && || ?: short-circuiting) against C11 6.10.1p4: operands
-have type intmax_t (64-bit signed here), arithmetic as in 6.5/6.6.
+"""C26 (slice) -- `#if` expression evaluation of the C preprocessor (CPreProcessor._eval_tree /
+_eval_typed with the OP_MAP operator table, unary operators, && || ?: short-circuiting) against
+C11 6.10.1p4: signed operands have type intmax_t (64-bit here), unsigned ones uintmax_t, arithmetic as
+in 6.5/6.6 including the usual arithmetic conversions (6.3.1.8) between the two.
 
-Unsigned operands (uintmax_t arithmetic for literals with a u suffix / values above INTMAX_MAX) are
-invisible at this level: the parser drops the suffix.  That clause is checked on the whole
-preprocessor with concrete directives (native runs, not proof) and is a recorded known finding."""
+The literal's type (u suffix, or a value above INTMAX_MAX) is set by the parser; the symbolic contracts
+build typed literals directly, the concrete whole-directive cases go through the parser."""
 import io
 from pyvc.engine import Contract, make_value
 from pyvc.spec import and_, or_, not_, implies, ite, iff, tier
@@ -106,6 +106,125 @@ for op in ("-", "~", "!"):
         ensures=lambda e: [("value == C11 value of (%s a) in intmax_t" % e.op, e.result == CS.c_unop(e.op, e.a, BITS, SIGNED)[1])]))
 
 
+# ---- unsigned operands: the usual arithmetic conversions (6.3.1.8) in uintmax_t ---------------------
+def ulit(v):
+    from ppci.lang.c.nodes import expressions
+    return expressions.NumericLiteral(v, pp()._uint_type, None)
+
+
+def _tlit(v, unsigned):
+    return ulit(v) if unsigned else lit(v)
+
+
+def _mk2u(c, g):
+    env = {}
+    for nm, u in (("a", g["ua"]), ("b", g["ub"])):
+        lo, hi = CS.lo_hi(BITS, not u)
+        env[nm] = make_value(("range", lo, hi + 1), nm, c)
+    return {"args": [], "env": dict(env), "inputs": dict(env)}
+
+
+def _samples2u(g, rnd):
+    def vals(u):
+        lo, hi = CS.lo_hi(BITS, not u)
+        base = [lo, lo + 1, 0, 1, 2, 3, 7, 63, 64, hi - 1, hi, 100, 1 << 31, 1 << 32, (1 << 63) - 1]
+        if not u:
+            base += [-7, -3, -2, -1, -100]
+        else:
+            base += [1 << 63, (1 << 63) + 1, (1 << 64) - 7]
+        return [v for v in base if lo <= v <= hi]
+    return [{"a": rnd.choice(vals(g["ua"])), "b": rnd.choice(vals(g["ub"]))} for _ in range(40)]
+
+
+def _binop_typed_call(fn, env, args, kwargs):
+    from ppci.lang.c.nodes import expressions
+    e = expressions.BinaryOperator(_tlit(env.a, env.ua), env.op, _tlit(env.b, env.ub), ityp(), True, None)
+    v, u = pp()._eval_typed(e)
+    return [v, b2i_native(u)]
+
+
+def b2i_native(u):
+    return 1 if u else 0
+
+
+def _conv(e):
+    """(result type is unsigned, converted a, converted b, signedness the operation is carried out in)"""
+    if e.op in ("<<", ">>"):
+        return e.ua, e.a, e.b, not e.ua           # 6.5.7p3: the type of the promoted left operand
+    if e.op in CS.LOGIC:
+        return False, e.a, e.b, True
+    un = e.ua or e.ub
+    a = CS.wrap(e.a, BITS, False) if un else e.a
+    b = CS.wrap(e.b, BITS, False) if un else e.b
+    return (un and e.op not in CS.COMPARE), a, b, not un
+
+
+def _req_u(e):
+    un, a, b, sg = _conv(e)
+    return CS.c_defined_steps(e.op, a, b, BITS, sg)
+
+
+def _ens_u(e):
+    un, a, b, sg = _conv(e)
+    return [("value == C11 value of (a %s b) after the usual arithmetic conversions" % e.op,
+             e.result[0] == CS.c_binop(e.op, a, b, BITS, sg)[1]),
+            ("result type unsigned iff C11 says so", e.result[1] == (1 if un else 0))]
+
+
+for op in CS.ARITH + CS.COMPARE + CS.LOGIC:
+    CONTRACTS.append(Contract(
+        M + ":CPreProcessor._eval_typed", "C26", label="#if (a %s b), unsigned operands" % op,
+        grid=[{"op": op, "ua": ua, "ub": ub} for ua, ub in ((True, True), (True, False), (False, True))], modules=[M],
+        make=_mk2u, call=_binop_typed_call, sample_inputs=_samples2u, replay_args=lambda g, v: {"args": [], "env": dict(v)},
+        requires=_req_u, ensures=_ens_u))
+
+
+def _unop_typed_call(fn, env, args, kwargs):
+    from ppci.lang.c.nodes import expressions
+    v, u = pp()._eval_typed(expressions.UnaryOperator(env.op, ulit(env.a), ityp(), True, None))
+    return [v, b2i_native(u)]
+
+
+for op in ("-", "~", "!"):
+    CONTRACTS.append(Contract(
+        M + ":CPreProcessor._eval_typed", "C26", label="#if (%s a), unsigned operand" % op, grid=[{"op": op, "ua": True, "ub": True}], modules=[M],
+        make=_mk2u, call=_unop_typed_call, sample_inputs=_samples2u, replay_args=lambda g, v: {"args": [], "env": dict(v)},
+        ensures=lambda e: [("value == C11 value of (%s a) in uintmax_t" % e.op, e.result[0] == CS.c_unop(e.op, e.a, BITS, False)[1]),
+                           ("result type: ! yields int, - and ~ keep uintmax_t", e.result[1] == (0 if e.op == "!" else 1))]))
+
+
+def _tern_typed_call(fn, env, args, kwargs):
+    from ppci.lang.c.nodes import expressions
+    div0 = expressions.BinaryOperator(lit(1), "/", _tlit(0, env.ub), ityp(), True, None)
+    if env.form == "then":
+        e = expressions.TernaryOperator(lit(env.c), "?", _tlit(env.a, env.ua), div0, ityp(), True, None)
+    else:
+        e = expressions.TernaryOperator(lit(env.c), "?", div0, _tlit(env.a, env.ua), ityp(), True, None)
+    v, u = pp()._eval_typed(e)
+    return [v, b2i_native(u)]
+
+
+def _mk_tern(c, g):
+    d = _mk2u(c, g)
+    lo, hi = CS.lo_hi(BITS, True)
+    cc = make_value(("range", lo, hi + 1), "c", c)
+    d["env"]["c"] = cc
+    d["inputs"]["c"] = cc
+    return d
+
+
+CONTRACTS.append(Contract(
+    M + ":CPreProcessor._eval_typed", "C26", label="#if (c ? a : b): common type of both arms, one arm evaluated",
+    grid=[{"form": f, "ua": ua, "ub": ub} for f in ("then", "else") for ua in (False, True) for ub in (False, True)], modules=[M],
+    make=_mk_tern, call=_tern_typed_call,
+    sample_inputs=lambda g, rnd: [dict(d, c=rnd.choice([0, 1, -1, 5])) for d in _samples2u(g, rnd)],
+    replay_args=lambda g, v: {"args": [], "env": dict(v)},
+    requires=lambda e: [(e.c != 0) if e.form == "then" else (e.c == 0)],
+    ensures=lambda e: [("value: the selected arm converted to the common type (6.5.15p5); the other arm (1/0) is not evaluated",
+                        e.result[0] == (CS.wrap(e.a, BITS, False) if (e.ua or e.ub) else e.a)),
+                       ("result type unsigned iff either arm is", e.result[1] == (1 if (e.ua or e.ub) else 0))]))
+
+
 # table completeness: every binary operator of a C11 #if expression has an entry
 def _complete_call(fn, env, args, kwargs):
     return sorted(_table_ops())
@@ -131,14 +250,19 @@ def run_if(cond):
 
 _CASES = [("-7 / 2 == -3", "yes"), ("-7 % 2 == -1", "yes"), ("7 / -2 == -3", "yes"), ("7 % -2 == 1", "yes"), ("(2 || 1/0) == 1", "yes"),
           ("0 && 1/0", "no"), ("1 ? 2 : (1/0)", "yes"), ("-1 >> 1 == -1", "yes"), ("(1 << 62) > 0", "yes"),
-          ("-1 < 0u", "no"), ("0u - 1 > 0", "yes"), ("(-1) / 2u > 0", "yes"), ("~0u == 18446744073709551615u", "yes")]
+          ("-1 < 0u", "no"), ("0u - 1 > 0", "yes"), ("(-1) / 2u > 0", "yes"), ("~0u == 18446744073709551615u", "yes"),
+          ("(1 ? -1 : 0u) < 0", "no"), ("(0 ? 0u : -1) > 0", "yes"), ("(-1 >> 1u) < 0", "yes"), ("-1 == 18446744073709551615", "yes"),
+          ("-1 < 0U", "no"), ("-1 < 0uL", "no"), ("-1 < 0LLU", "no"), ("-1 < 0x0u", "no"), ("-1 < 0L", "yes"),
+          ("9223372036854775808 > 0", "yes"), ("-9223372036854775807 - 1 < 0", "yes"), ("!0u - 2 < 0", "yes"),
+          ("(2u > 1) - 2 < 0", "yes"), ("(1u && 1) - 2 < 0", "yes"), ("(1u << 63) > 0", "yes"), ("(1u << 63) << 1 == 0", "yes")]
 CONTRACTS.append(Contract(
     M + ":CPreProcessor.process_file", "C26", label="#if directive, concrete cases (native)", grid=[{"text": t, "expect": x} for t, x in _CASES],
     make=lambda c, g: {"args": [], "env": {}, "inputs": {}}, call=lambda fn, env, a, k: run_if(env.text),
     sample_inputs=lambda g, rnd: [{}], replay_args=lambda g, v: {"args": [], "env": {}},
     ensures=lambda e: [("conditional group selected as C11 prescribes", e.result == e.expect)]))
 
-ASSUMED = ["contracts/csem.py is C11 integer semantics; intmax_t is 64-bit two's complement",
-           "operands of the symbolic contracts are intmax_t values (signed); see the known finding for uintmax_t operands"]
+ASSUMED = ["contracts/csem.py is C11 integer semantics; intmax_t / uintmax_t are 64-bit, two's complement",
+           "literal typing (u suffix or value above INTMAX_MAX => uintmax_t) is done by the parser (parse_expression / cnum): covered by the "
+           "concrete whole-directive cases only; the symbolic contracts build typed literals"]
 NOT_COVERED = ["macro expansion, hide sets, stringification, token pasting, directive handling (token-sequence equality with a conforming "
-               "preprocessor is outside contract reach)", "the parser of #if expressions (precedence, literal suffixes)"]
+               "preprocessor is outside contract reach)", "the parser of #if expressions (precedence, literal suffixes) beyond the concrete cases"]
